@@ -3,6 +3,7 @@ module verif/harness26
 go 1.26
 
 require (
+	github.com/Jigsaw-Code/outline-sdk v0.0.14
 	github.com/Jigsaw-Code/outline-ss-server v0.0.0
 	github.com/prometheus/client_golang v1.15.0
 	pgregory.net/rapid v1.3.0
@@ -10,7 +11,6 @@ require (
 )
 
 require (
-	github.com/Jigsaw-Code/outline-sdk v0.0.14 // indirect
 	github.com/beorn7/perks v1.0.1 // indirect
 	github.com/cespare/xxhash/v2 v2.2.0 // indirect
 	github.com/golang/protobuf v1.5.3 // indirect
